@@ -343,6 +343,27 @@ func (ex *Exec) newRef(st *State, base string) string {
 	return r
 }
 
+// allocSub marks the sub-objects (struct-typed fields stored by value) of a freshly allocated object
+// as allocated together with it.
+func (ex *Exec) allocSub(st *State, ref string, ty types.Type) {
+	n, stT, _ := structOf(ty)
+	if stT == nil {
+		return
+	}
+	pt := types.NewPointer(namedOr(n, stT))
+	for i := 0; i < stT.NumFields(); i++ {
+		ft := ex.fieldType(pt, stT.Field(i))
+		if !ex.nestedStruct(ft) {
+			continue
+		}
+		sub := ex.fieldAddr(ref, pt, stT.Field(i).Name())
+		al := ex.allocArr(st)
+		st.assume(sNot(sSel(al, sub)))
+		ex.heapSet(st, "alloc", ex.w.setSort(sRef), sStore(al, sub, "true"))
+		ex.allocSub(st, sub, ft)
+	}
+}
+
 func (ex *Exec) newArr(st *State, base string) string {
 	a := ex.w.freshConst(base, sArrId)
 	al := ex.arrAllocArr(st)
